@@ -1,14 +1,32 @@
 package main
 
-// C18 facts: the status thresholds of defaultResultStateChecker (translated as a function),
-// the iota values of the ResultState constants, the status guard of every auto-read block
-// (`… && resp.StatusCode > 199 { resp.ToBytes() … }`) and the 204 guards of parseResponseBody.
-// The extractor refuses when the source leaves the shapes below.
+// C18 facts, regenerated from the go/ast of /repo:
+//
+//  1. the iota values of the ResultState constants;
+//  2. defaultResultStateChecker, TRANSLATED into a Lean function of the status code by a small
+//     symbolic evaluator. Control-flow shape does not matter: if / else-if chains, guard clauses
+//     with early returns, tagless or tagged `switch` (on the code), nested blocks, the status
+//     code or a threshold or the result hoisted into locals (any names), and a call to an
+//     unexported helper of the same package (inlined, one level deep) all evaluate to the same
+//     kind of decision tree; the bridge proves it equal to the model by case analysis + omega,
+//     whatever the branch shape;
+//  3. the status BOUNDARIES of every auto-read site (an `if` whose body calls ToBytes, in
+//     Client.roundTrip and in the digest middleware), in a normal form that identifies
+//     `> 199`, `>= 200`, and — guard-clause / De Morgan forms — `<= 199`, `< 200`; comparisons
+//     hoisted into a local or moved into an unexported helper predicate (one level) are followed;
+//  4. the status POINTS parseResponseBody (and unexported helpers it calls, one level) compares
+//     with `==` / `!=` — the 204 special-casing — as a set, independent of the control flow.
+//
+// Facts 3 and 4 are deliberately shape-free: WHICH branch a guard protects is pinned
+// behaviourally by the bind / call lanes (dropping or flipping a guard is a failing input
+// there); the fact pins the constant for every status at once. Only fact 2 can refuse (exit 1),
+// and only on code outside the statement subset above.
 
 import (
 	"fmt"
 	"go/ast"
 	"go/token"
+	"sort"
 	"strconv"
 	"strings"
 )
@@ -17,170 +35,453 @@ func init() { register("C18Facts", c18Facts) }
 
 // net/http status constants the anchored code may mention.
 var c18HTTPStatus = map[string]int{
-	"StatusOK": 200, "StatusNoContent": 204, "StatusUnauthorized": 401, "StatusMultipleChoices": 300,
-	"StatusBadRequest": 400, "StatusContinue": 100, "StatusSwitchingProtocols": 101,
+	"StatusContinue": 100, "StatusSwitchingProtocols": 101, "StatusOK": 200, "StatusCreated": 201,
+	"StatusAccepted": 202, "StatusNoContent": 204, "StatusResetContent": 205, "StatusPartialContent": 206,
+	"StatusMultipleChoices": 300, "StatusNotModified": 304, "StatusBadRequest": 400, "StatusUnauthorized": 401,
+	"StatusForbidden": 403, "StatusNotFound": 404, "StatusInternalServerError": 500,
 }
 
-type c18Tr struct {
-	codeVar string // local bound to X.StatusCode ("" = none)
+// ---------------------------------------------------------------------------------------
+// symbolic values
+
+type c18Val struct {
+	kind string // "code" (the status code), "int" (integer constant), "state" (Lean Nat term), "bool" (Lean Bool term)
+	term string
 }
 
-// intOperand recognises the status code operand or an integer constant.
-func (t *c18Tr) operand(e ast.Expr) (string, error) {
+type c18Env map[string]c18Val
+
+func (e c18Env) with(name string, v c18Val) c18Env {
+	n := c18Env{}
+	for k, x := range e {
+		n[k] = x
+	}
+	n[name] = v
+	return n
+}
+
+type c18Sym struct {
+	c      *ctx
+	consts map[string]int // ResultState constants
+	depth  int            // helper inlining depth
+}
+
+var c18CmpOps = map[token.Token]string{token.GTR: ">", token.LSS: "<", token.GEQ: "≥", token.LEQ: "≤", token.EQL: "=", token.NEQ: "≠"}
+
+// helper finds an unexported top-level function or method of the root package by name.
+func (s *c18Sym) helper(name string) *ast.FuncDecl {
+	if name == "" || ast.IsExported(name) {
+		return nil
+	}
+	fs, err := s.c.files("")
+	if err != nil {
+		return nil
+	}
+	var found *ast.FuncDecl
+	for _, f := range fs {
+		for _, d := range f.Decls {
+			if fd, ok := d.(*ast.FuncDecl); ok && fd.Name.Name == name && fd.Body != nil {
+				if found != nil {
+					return nil // ambiguous (method on several types)
+				}
+				found = fd
+			}
+		}
+	}
+	return found
+}
+
+func c18CalleeName(ce *ast.CallExpr) string {
+	switch f := ce.Fun.(type) {
+	case *ast.Ident:
+		return f.Name
+	case *ast.SelectorExpr:
+		return f.Sel.Name
+	}
+	return ""
+}
+
+// expr evaluates an expression to a symbolic value.
+func (s *c18Sym) expr(e ast.Expr, env c18Env) (c18Val, error) {
 	switch x := e.(type) {
 	case *ast.ParenExpr:
-		return t.operand(x.X)
+		return s.expr(x.X, env)
 	case *ast.Ident:
-		if x.Name == t.codeVar && t.codeVar != "" {
-			return "code", nil
+		if v, ok := env[x.Name]; ok {
+			return v, nil
+		}
+		if v, ok := s.consts[x.Name]; ok {
+			return c18Val{"state", strconv.Itoa(v)}, nil
+		}
+		if x.Name == "true" || x.Name == "false" {
+			return c18Val{"bool", x.Name}, nil
 		}
 	case *ast.SelectorExpr:
 		if x.Sel.Name == "StatusCode" {
-			return "code", nil
+			return c18Val{"code", "code"}, nil
 		}
 		if id, ok := x.X.(*ast.Ident); ok && id.Name == "http" {
 			if v, ok := c18HTTPStatus[x.Sel.Name]; ok {
-				return strconv.Itoa(v), nil
+				return c18Val{"int", strconv.Itoa(v)}, nil
 			}
 		}
 	case *ast.BasicLit:
 		if x.Kind == token.INT {
-			v, err := strconv.ParseInt(x.Value, 0, 64)
-			if err == nil {
-				return strconv.FormatInt(v, 10), nil
+			if v, err := strconv.ParseInt(x.Value, 0, 64); err == nil {
+				return c18Val{"int", strconv.FormatInt(v, 10)}, nil
 			}
 		}
-	}
-	return "", fmt.Errorf("operand outside the subset: %T", e)
-}
-
-var c18CmpOps = map[token.Token]string{token.GTR: ">", token.LSS: "<", token.GEQ: "≥", token.LEQ: "≤", token.EQL: "=", token.NEQ: "≠"}
-var c18OpNames = map[token.Token]string{token.GTR: ".gt", token.LSS: ".lt", token.GEQ: ".ge", token.LEQ: ".le", token.EQL: ".eq", token.NEQ: ".ne"}
-
-// cond translates a boolean expression over the status code into a Lean Bool term.
-func (t *c18Tr) cond(e ast.Expr) (string, error) {
-	switch x := e.(type) {
-	case *ast.ParenExpr:
-		return t.cond(x.X)
 	case *ast.UnaryExpr:
 		if x.Op == token.NOT {
-			s, err := t.cond(x.X)
-			return "(!" + s + ")", err
+			v, err := s.expr(x.X, env)
+			if err != nil {
+				return v, err
+			}
+			if v.kind == "bool" {
+				return c18Val{"bool", "(!" + v.term + ")"}, nil
+			}
 		}
 	case *ast.BinaryExpr:
-		switch x.Op {
-		case token.LAND, token.LOR:
-			l, err := t.cond(x.X)
-			if err != nil {
-				return "", err
-			}
-			r, err := t.cond(x.Y)
-			if err != nil {
-				return "", err
-			}
+		l, err := s.expr(x.X, env)
+		if err != nil {
+			return l, err
+		}
+		r, err := s.expr(x.Y, env)
+		if err != nil {
+			return r, err
+		}
+		isInt := func(v c18Val) bool { return v.kind == "code" || v.kind == "int" }
+		switch {
+		case (x.Op == token.LAND || x.Op == token.LOR) && l.kind == "bool" && r.kind == "bool":
 			op := " && "
 			if x.Op == token.LOR {
 				op = " || "
 			}
-			return "(" + l + op + r + ")", nil
+			return c18Val{"bool", "(" + l.term + op + r.term + ")"}, nil
+		case c18CmpOps[x.Op] != "" && isInt(l) && isInt(r):
+			return c18Val{"bool", "decide (" + l.term + " " + c18CmpOps[x.Op] + " " + r.term + ")"}, nil
 		}
-		if op, ok := c18CmpOps[x.Op]; ok {
-			l, err := t.operand(x.X)
-			if err != nil {
-				return "", err
+	case *ast.CallExpr:
+		// an unexported helper of the same package, inlined one level deep
+		if fd := s.helper(c18CalleeName(x)); fd != nil && s.depth == 0 {
+			var args []c18Val
+			if sel, ok := x.Fun.(*ast.SelectorExpr); ok && fd.Recv != nil { // method call: receiver first
+				if v, err := s.expr(sel.X, env); err == nil {
+					args = append(args, v)
+				} else {
+					args = append(args, c18Val{"opaque", ""})
+				}
 			}
-			r, err := t.operand(x.Y)
-			if err != nil {
-				return "", err
+			for _, a := range x.Args {
+				v, err := s.expr(a, env)
+				if err != nil {
+					v = c18Val{"opaque", ""} // e.g. the *Response itself: only its StatusCode is ever read
+				}
+				args = append(args, v)
 			}
-			return "decide (" + l + " " + op + " " + r + ")", nil
+			var names []string
+			if fd.Recv != nil {
+				for _, f := range fd.Recv.List {
+					for _, n := range f.Names {
+						names = append(names, n.Name)
+					}
+				}
+			}
+			for _, f := range fd.Type.Params.List {
+				for _, n := range f.Names {
+					names = append(names, n.Name)
+				}
+			}
+			if len(names) != len(args) {
+				return c18Val{}, fmt.Errorf("helper %s: cannot bind arguments", fd.Name.Name)
+			}
+			henv := c18Env{}
+			for i, n := range names {
+				if args[i].kind != "opaque" {
+					henv[n] = args[i]
+				}
+			}
+			s.depth++
+			t, err := s.block(fd.Body.List, henv, func(c18Env) (string, error) {
+				return "", fmt.Errorf("helper %s falls off its end", fd.Name.Name)
+			})
+			s.depth--
+			if err != nil {
+				return c18Val{}, err
+			}
+			kind := "state"
+			if fd.Type.Results != nil && len(fd.Type.Results.List) == 1 {
+				if id, ok := fd.Type.Results.List[0].Type.(*ast.Ident); ok && id.Name == "bool" {
+					kind = "bool"
+				}
+			}
+			return c18Val{kind, "(" + t + ")"}, nil
 		}
 	}
-	return "", fmt.Errorf("condition outside the subset: %T", e)
+	return c18Val{}, fmt.Errorf("expression outside the subset: %T", e)
 }
 
-func c18SingleReturnIdent(b *ast.BlockStmt) (string, error) {
-	if b == nil || len(b.List) != 1 {
-		return "", fmt.Errorf("branch is not a single return")
+// block symbolically executes stmts; k is what happens when control falls off the end. The
+// result is a Lean term for the value finally returned.
+func (s *c18Sym) block(stmts []ast.Stmt, env c18Env, k func(c18Env) (string, error)) (string, error) {
+	if len(stmts) == 0 {
+		return k(env)
 	}
-	rs, ok := b.List[0].(*ast.ReturnStmt)
-	if !ok || len(rs.Results) != 1 {
-		return "", fmt.Errorf("branch is not a single return")
-	}
-	id, ok := rs.Results[0].(*ast.Ident)
-	if !ok {
-		return "", fmt.Errorf("branch does not return a named constant")
-	}
-	return id.Name, nil
-}
-
-func (t *c18Tr) ifChain(s ast.Stmt, consts map[string]int) (string, error) {
-	switch x := s.(type) {
+	rest := func(e c18Env) (string, error) { return s.block(stmts[1:], e, k) }
+	switch x := stmts[0].(type) {
+	case *ast.EmptyStmt:
+		return rest(env)
+	case *ast.BlockStmt:
+		return s.block(x.List, env, rest)
+	case *ast.ReturnStmt:
+		if len(x.Results) != 1 {
+			return "", fmt.Errorf("return outside the subset")
+		}
+		v, err := s.expr(x.Results[0], env)
+		if err != nil {
+			return "", err
+		}
+		if v.kind != "state" && v.kind != "bool" {
+			return "", fmt.Errorf("return of a %s value", v.kind)
+		}
+		return v.term, nil
+	case *ast.AssignStmt:
+		if len(x.Lhs) != 1 || len(x.Rhs) != 1 || (x.Tok != token.DEFINE && x.Tok != token.ASSIGN) {
+			return "", fmt.Errorf("assignment outside the subset")
+		}
+		id, ok := x.Lhs[0].(*ast.Ident)
+		if !ok {
+			return "", fmt.Errorf("assignment to a non-local")
+		}
+		v, err := s.expr(x.Rhs[0], env)
+		if err != nil {
+			return "", err
+		}
+		return rest(env.with(id.Name, v))
+	case *ast.DeclStmt:
+		gd, ok := x.Decl.(*ast.GenDecl)
+		if !ok || (gd.Tok != token.VAR && gd.Tok != token.CONST) {
+			return "", fmt.Errorf("declaration outside the subset")
+		}
+		for _, sp := range gd.Specs {
+			vs := sp.(*ast.ValueSpec)
+			if len(vs.Names) != len(vs.Values) {
+				if len(vs.Values) == 0 {
+					continue // `var st ResultState`: assigned before use or the evaluation fails at the use
+				}
+				return "", fmt.Errorf("declaration outside the subset")
+			}
+			for i, n := range vs.Names {
+				v, err := s.expr(vs.Values[i], env)
+				if err != nil {
+					return "", err
+				}
+				env = env.with(n.Name, v)
+			}
+		}
+		return rest(env)
 	case *ast.IfStmt:
 		if x.Init != nil {
-			as, ok := x.Init.(*ast.AssignStmt)
-			if !ok || as.Tok != token.DEFINE || len(as.Lhs) != 1 || len(as.Rhs) != 1 {
-				return "", fmt.Errorf("if-init outside the subset")
-			}
-			sel, ok := as.Rhs[0].(*ast.SelectorExpr)
-			if !ok || sel.Sel.Name != "StatusCode" {
-				return "", fmt.Errorf("if-init does not bind the status code")
-			}
-			t.codeVar = as.Lhs[0].(*ast.Ident).Name
+			return s.block([]ast.Stmt{x.Init, &ast.IfStmt{Cond: x.Cond, Body: x.Body, Else: x.Else}}, env, rest)
 		}
-		c, err := t.cond(x.Cond)
+		c, err := s.expr(x.Cond, env)
 		if err != nil {
 			return "", err
 		}
-		name, err := c18SingleReturnIdent(x.Body)
+		if c.kind != "bool" {
+			return "", fmt.Errorf("condition is not boolean")
+		}
+		th, err := s.block(x.Body.List, env, rest)
 		if err != nil {
 			return "", err
 		}
-		v, ok := consts[name]
-		if !ok {
-			return "", fmt.Errorf("unknown state constant %s", name)
-		}
+		var el string
 		if x.Else == nil {
-			return "", fmt.Errorf("if without else")
+			el, err = rest(env)
+		} else {
+			el, err = s.block([]ast.Stmt{x.Else}, env, rest)
 		}
-		rest, err := t.ifChain(x.Else, consts)
 		if err != nil {
 			return "", err
 		}
-		return fmt.Sprintf("if %s then %d else %s", c, v, rest), nil
-	case *ast.BlockStmt:
-		name, err := c18SingleReturnIdent(x)
-		if err != nil {
-			return "", err
+		return "(if " + c.term + " then " + th + " else " + el + ")", nil
+	case *ast.SwitchStmt:
+		if x.Init != nil {
+			return s.block([]ast.Stmt{x.Init, &ast.SwitchStmt{Tag: x.Tag, Body: x.Body}}, env, rest)
 		}
-		v, ok := consts[name]
-		if !ok {
-			return "", fmt.Errorf("unknown state constant %s", name)
+		var tag *c18Val
+		if x.Tag != nil {
+			v, err := s.expr(x.Tag, env)
+			if err != nil {
+				return "", err
+			}
+			if v.kind != "code" && v.kind != "int" && v.kind != "bool" {
+				return "", fmt.Errorf("switch tag outside the subset")
+			}
+			tag = &v
 		}
-		return strconv.Itoa(v), nil
+		var def *ast.CaseClause
+		type arm struct {
+			cond string
+			body []ast.Stmt
+		}
+		var arms []arm
+		for _, st := range x.Body.List {
+			cc := st.(*ast.CaseClause)
+			for _, b := range cc.Body {
+				if br, ok := b.(*ast.BranchStmt); ok && br.Tok == token.FALLTHROUGH {
+					return "", fmt.Errorf("fallthrough is outside the subset")
+				}
+			}
+			if cc.List == nil {
+				def = cc
+				continue
+			}
+			var alts []string
+			for _, e := range cc.List {
+				v, err := s.expr(e, env)
+				if err != nil {
+					return "", err
+				}
+				switch {
+				case tag == nil && v.kind == "bool":
+					alts = append(alts, v.term)
+				case tag != nil && tag.kind == "bool" && v.kind == "bool":
+					alts = append(alts, "("+tag.term+" == "+v.term+")")
+				case tag != nil && (v.kind == "int" || v.kind == "code") && tag.kind != "bool":
+					alts = append(alts, "decide ("+tag.term+" = "+v.term+")")
+				default:
+					return "", fmt.Errorf("case expression outside the subset")
+				}
+			}
+			arms = append(arms, arm{"(" + strings.Join(alts, " || ") + ")", cc.Body})
+		}
+		// `break` inside a switch arm would leave the switch: not supported
+		var build func(i int) (string, error)
+		build = func(i int) (string, error) {
+			if i == len(arms) {
+				if def != nil {
+					return s.block(def.Body, env, rest)
+				}
+				return rest(env)
+			}
+			th, err := s.block(arms[i].body, env, rest)
+			if err != nil {
+				return "", err
+			}
+			el, err := build(i + 1)
+			if err != nil {
+				return "", err
+			}
+			return "(if " + arms[i].cond + " then " + th + " else " + el + ")", nil
+		}
+		return build(0)
 	}
-	return "", fmt.Errorf("statement outside the subset: %T", s)
+	return "", fmt.Errorf("statement outside the subset: %T", stmts[0])
 }
 
-// statusConjuncts lists the comparisons on the status code among the &&-conjuncts of e.
-func (t *c18Tr) statusConjuncts(e ast.Expr, out *[]string) {
-	switch x := e.(type) {
-	case *ast.ParenExpr:
-		t.statusConjuncts(x.X, out)
-	case *ast.BinaryExpr:
-		if x.Op == token.LAND {
-			t.statusConjuncts(x.X, out)
-			t.statusConjuncts(x.Y, out)
-			return
-		}
-		if op, ok := c18OpNames[x.Op]; ok {
-			l, err1 := t.operand(x.X)
-			r, err2 := t.operand(x.Y)
-			if err1 == nil && err2 == nil && l == "code" && r != "code" {
-				*out = append(*out, "("+op+", "+r+")")
+// ---------------------------------------------------------------------------------------
+// shape-free threshold facts
+
+// c18Cmp is one comparison of the status code with a constant, normalised:
+// boundary b ("code ≥ b" versus "code < b", whichever way it is written or negated) or point p.
+type c18Cmp struct {
+	boundary bool
+	v        int
+}
+
+// statusLocals returns the locals of fn that are bound (anywhere) to X.StatusCode.
+func c18StatusLocals(fn ast.Node) map[string]bool {
+	m := map[string]bool{}
+	ast.Inspect(fn, func(n ast.Node) bool {
+		if as, ok := n.(*ast.AssignStmt); ok && len(as.Lhs) == len(as.Rhs) {
+			for i, r := range as.Rhs {
+				if sel, ok := r.(*ast.SelectorExpr); ok && sel.Sel.Name == "StatusCode" {
+					if id, ok := as.Lhs[i].(*ast.Ident); ok {
+						m[id.Name] = true
+					}
+				}
 			}
 		}
+		return true
+	})
+	return m
+}
+
+func c18IntConst(e ast.Expr) (int, bool) {
+	switch x := e.(type) {
+	case *ast.ParenExpr:
+		return c18IntConst(x.X)
+	case *ast.BasicLit:
+		if x.Kind == token.INT {
+			if v, err := strconv.ParseInt(x.Value, 0, 64); err == nil {
+				return int(v), true
+			}
+		}
+	case *ast.SelectorExpr:
+		if id, ok := x.X.(*ast.Ident); ok && id.Name == "http" {
+			v, ok := c18HTTPStatus[x.Sel.Name]
+			return v, ok
+		}
 	}
+	return 0, false
+}
+
+// statusCmps collects every comparison of the status code with a constant under n.
+func c18StatusCmps(n ast.Node, locals map[string]bool, out *[]c18Cmp) {
+	isCode := func(e ast.Expr) bool {
+		for {
+			p, ok := e.(*ast.ParenExpr)
+			if !ok {
+				break
+			}
+			e = p.X
+		}
+		switch x := e.(type) {
+		case *ast.SelectorExpr:
+			return x.Sel.Name == "StatusCode"
+		case *ast.Ident:
+			return locals[x.Name]
+		}
+		return false
+	}
+	ast.Inspect(n, func(m ast.Node) bool {
+		be, ok := m.(*ast.BinaryExpr)
+		if !ok {
+			return true
+		}
+		op := be.Op
+		var v int
+		var okc bool
+		switch {
+		case isCode(be.X):
+			v, okc = c18IntConst(be.Y)
+		case isCode(be.Y): // constant on the left: mirror the operator
+			v, okc = c18IntConst(be.X)
+			switch op {
+			case token.GTR:
+				op = token.LSS
+			case token.LSS:
+				op = token.GTR
+			case token.GEQ:
+				op = token.LEQ
+			case token.LEQ:
+				op = token.GEQ
+			}
+		}
+		if !okc {
+			return true
+		}
+		switch op {
+		case token.GTR, token.LEQ: // code > v  |  !(code > v)
+			*out = append(*out, c18Cmp{true, v + 1})
+		case token.GEQ, token.LSS: // code >= v |  !(code >= v)
+			*out = append(*out, c18Cmp{true, v})
+		case token.EQL, token.NEQ:
+			*out = append(*out, c18Cmp{false, v})
+		}
+		return true
+	})
 }
 
 func c18CallsMethod(n ast.Node, method string) bool {
@@ -195,6 +496,63 @@ func c18CallsMethod(n ast.Node, method string) bool {
 	})
 	return found
 }
+
+// reads: n calls ToBytes, directly or through an unexported helper (one level).
+func (s *c18Sym) reads(n ast.Node) bool {
+	if c18CallsMethod(n, "ToBytes") {
+		return true
+	}
+	found := false
+	ast.Inspect(n, func(m ast.Node) bool {
+		if ce, ok := m.(*ast.CallExpr); ok {
+			if h := s.helper(c18CalleeName(ce)); h != nil && h.Name.Name != "unmarshalBody" && c18CallsMethod(h.Body, "ToBytes") {
+				found = true
+			}
+		}
+		return true
+	})
+	return found
+}
+
+// cmpsWithHelpers: the comparisons under n plus those inside unexported same-package helpers
+// called under n (one level deep).
+func (s *c18Sym) cmpsWithHelpers(n ast.Node, locals map[string]bool) []c18Cmp {
+	var out []c18Cmp
+	c18StatusCmps(n, locals, &out)
+	seen := map[string]bool{}
+	ast.Inspect(n, func(m ast.Node) bool {
+		if ce, ok := m.(*ast.CallExpr); ok {
+			name := c18CalleeName(ce)
+			if fd := s.helper(name); fd != nil && !seen[name] {
+				seen[name] = true
+				c18StatusCmps(fd.Body, c18StatusLocals(fd), &out)
+			}
+		}
+		return true
+	})
+	return out
+}
+
+func c18Render(cmps []c18Cmp, boundary bool) string {
+	set := map[int]bool{}
+	for _, c := range cmps {
+		if c.boundary == boundary {
+			set[c.v] = true
+		}
+	}
+	var vs []int
+	for v := range set {
+		vs = append(vs, v)
+	}
+	sort.Ints(vs)
+	p := make([]string, len(vs))
+	for i, v := range vs {
+		p[i] = strconv.Itoa(v)
+	}
+	return "[" + strings.Join(p, ", ") + "]"
+}
+
+// ---------------------------------------------------------------------------------------
 
 func c18Facts(c *ctx) (string, error) {
 	// 1. ResultState constants (iota block)
@@ -238,23 +596,24 @@ func c18Facts(c *ctx) (string, error) {
 	if len(consts) != 3 {
 		return "", fmt.Errorf("ResultState has %d constants, expected 3", len(consts))
 	}
-	// 2. defaultResultStateChecker
+	sym := &c18Sym{c: c, consts: consts}
+	// 2. defaultResultStateChecker, symbolically evaluated
 	fd, err := c.funcDecl("", "", "defaultResultStateChecker")
 	if err != nil {
 		return "", err
 	}
-	if fd.Body == nil || len(fd.Body.List) != 1 {
-		return "", fmt.Errorf("defaultResultStateChecker: body is not a single if-chain")
-	}
-	tr := &c18Tr{}
-	chain, err := tr.ifChain(fd.Body.List[0], consts)
+	tree, err := sym.block(fd.Body.List, c18Env{}, func(c18Env) (string, error) {
+		return "", fmt.Errorf("control falls off the end")
+	})
 	if err != nil {
 		return "", fmt.Errorf("defaultResultStateChecker: %v", err)
 	}
-	// 3. auto-read sites: every `if … { …ToBytes() … }` whose condition mentions StatusCode,
-	// in Client.roundTrip (must exist) and handleDigestAuthFunc (present once repaired)
+	// 3. auto-read sites
 	var sites []string
-	for _, fn := range []struct{ recv, name string; must bool }{{"Client", "roundTrip", true}, {"", "handleDigestAuthFunc", false}} {
+	for _, fn := range []struct {
+		recv, name string
+		must       bool
+	}{{"Client", "roundTrip", true}, {"", "handleDigestAuthFunc", false}} {
 		fd, err := c.funcDecl("", fn.recv, fn.name)
 		if err != nil {
 			if fn.must {
@@ -262,93 +621,76 @@ func c18Facts(c *ctx) (string, error) {
 			}
 			continue
 		}
-		n := 0
+		// the function itself and the unexported helpers it calls (one level): the whole
+		// auto-read block may have been extracted
+		scan := []*ast.FuncDecl{fd}
+		seenH := map[string]bool{}
 		ast.Inspect(fd, func(m ast.Node) bool {
-			ifs, ok := m.(*ast.IfStmt)
-			if !ok || !c18CallsMethod(ifs.Body, "ToBytes") {
-				return true
+			if ce, ok := m.(*ast.CallExpr); ok {
+				name := c18CalleeName(ce)
+				if h := sym.helper(name); h != nil && !seenH[name] && name != "parseResponseBody" {
+					seenH[name] = true
+					scan = append(scan, h)
+				}
 			}
-			var conj []string
-			(&c18Tr{}).statusConjuncts(ifs.Cond, &conj)
-			sites = append(sites, fmt.Sprintf("(\"%s\", [%s])", fn.name, strings.Join(conj, ", ")))
-			n++
 			return true
 		})
-		if fn.must && n != 1 {
-			return "", fmt.Errorf("%s: expected exactly one auto-read block, found %d", fn.name, n)
+		for _, fd := range scan {
+			locals := c18StatusLocals(fd)
+			// a condition hoisted into a boolean local: `auto := … && resp.StatusCode > 199; if auto {`
+			boolLocals := map[string]ast.Expr{}
+			ast.Inspect(fd, func(m ast.Node) bool {
+				if as, ok := m.(*ast.AssignStmt); ok && len(as.Lhs) == 1 && len(as.Rhs) == 1 {
+					if id, ok := as.Lhs[0].(*ast.Ident); ok {
+						boolLocals[id.Name] = as.Rhs[0]
+					}
+				}
+				return true
+			})
+			ast.Inspect(fd, func(m ast.Node) bool {
+				ifs, ok := m.(*ast.IfStmt)
+				if !ok {
+					return true
+				}
+				inBody := sym.reads(ifs.Body)
+				inElse := ifs.Else != nil && sym.reads(ifs.Else)
+				if !inBody && !inElse {
+					return true
+				}
+				cmps := sym.cmpsWithHelpers(ifs.Cond, locals)
+				ast.Inspect(ifs.Cond, func(x ast.Node) bool {
+					if id, ok := x.(*ast.Ident); ok {
+						if e, ok := boolLocals[id.Name]; ok {
+							cmps = append(cmps, sym.cmpsWithHelpers(e, locals)...)
+						}
+					}
+					return true
+				})
+				if len(cmps) == 0 && inBody {
+					// nested form: the status test sits in an enclosing/enclosed `if`; the inner site reports it
+					return true
+				}
+				sites = append(sites, fmt.Sprintf("(\"%s\", %s)", fn.name, c18Render(cmps, true)))
+				return true
+			})
 		}
 	}
-	// 4. parseResponseBody: the status guards of the success and error arms
+	// 4. parseResponseBody: status points
 	fd, err = c.funcDecl("", "", "parseResponseBody")
 	if err != nil {
 		return "", err
 	}
-	arms := map[string][]string{}
-	var sw *ast.SwitchStmt
-	ast.Inspect(fd, func(m ast.Node) bool {
-		if s, ok := m.(*ast.SwitchStmt); ok && sw == nil {
-			sw = s
-		}
-		return true
-	})
-	if sw == nil {
-		return "", fmt.Errorf("parseResponseBody: no switch")
-	}
-	for _, st := range sw.Body.List {
-		cc := st.(*ast.CaseClause)
-		if len(cc.List) != 1 {
-			return "", fmt.Errorf("parseResponseBody: case clause outside the subset")
-		}
-		id, ok := cc.List[0].(*ast.Ident)
-		if !ok {
-			return "", fmt.Errorf("parseResponseBody: case label outside the subset")
-		}
-		var conj []string
-		if len(cc.Body) == 0 {
-			return "", fmt.Errorf("parseResponseBody: empty arm %s", id.Name)
-		}
-		ifs, ok := cc.Body[0].(*ast.IfStmt)
-		if !ok {
-			return "", fmt.Errorf("parseResponseBody: arm %s does not start with an if", id.Name)
-		}
-		(&c18Tr{}).statusConjuncts(ifs.Cond, &conj)
-		kind := "bind" // the if guards the unmarshal
-		if len(ifs.Body.List) == 1 {
-			if _, ok := ifs.Body.List[0].(*ast.ReturnStmt); ok {
-				kind = "return" // early return
-			}
-		}
-		arms[id.Name] = append([]string{"\"" + kind + "\""}, conj...)
-	}
-	arm := func(name string) (string, error) {
-		a, ok := arms[name]
-		if !ok {
-			return "", fmt.Errorf("parseResponseBody: no arm for %s", name)
-		}
-		return "(" + a[0] + ", [" + strings.Join(a[1:], ", ") + "])", nil
-	}
-	sArm, err := arm("SuccessState")
-	if err != nil {
-		return "", err
-	}
-	eArm, err := arm("ErrorState")
-	if err != nil {
-		return "", err
-	}
-	if len(arms) != 2 {
-		return "", fmt.Errorf("parseResponseBody: %d arms, expected 2", len(arms))
-	}
+	points := c18Render(sym.cmpsWithHelpers(fd.Body, c18StatusLocals(fd)), false)
+
 	var b strings.Builder
 	b.WriteString("namespace Generated.C18Facts\n\n")
-	b.WriteString("inductive Op | gt | lt | ge | le | eq | ne\n  deriving DecidableEq, Repr\n\n")
 	fmt.Fprintf(&b, "def successState : Nat := %d\ndef errorState : Nat := %d\ndef unknownState : Nat := %d\n\n", consts["SuccessState"], consts["ErrorState"], consts["UnknownState"])
-	b.WriteString("/-- middleware.go defaultResultStateChecker, translated statement by statement. -/\n")
-	fmt.Fprintf(&b, "def defaultChecker (code : Int) : Nat :=\n  %s\n\n", chain)
-	b.WriteString("/-- status conjuncts of every `if … { resp.ToBytes() … }` auto-read block. -/\n")
-	fmt.Fprintf(&b, "def autoReadSites : List (String × List (Op × Int)) := [%s]\n\n", strings.Join(sites, ", "))
-	b.WriteString("/-- parseResponseBody: first `if` of the success / error arm: kind and status conjuncts. -/\n")
-	fmt.Fprintf(&b, "def parseSuccessArm : String × List (Op × Int) := %s\n", sArm)
-	fmt.Fprintf(&b, "def parseErrorArm : String × List (Op × Int) := %s\n\n", eArm)
+	b.WriteString("/-- middleware.go defaultResultStateChecker, symbolically evaluated into a decision tree. -/\n")
+	fmt.Fprintf(&b, "def defaultChecker (code : Int) : Nat :=\n  %s\n\n", tree)
+	b.WriteString("/-- auto-read sites (`if … { … ToBytes() … }`): the status boundaries b (\"code ≥ b\") their conditions test. -/\n")
+	fmt.Fprintf(&b, "def autoReadSites : List (String × List Int) := [%s]\n\n", strings.Join(sites, ", "))
+	b.WriteString("/-- parseResponseBody (+ helpers, one level): the status codes it compares with == / !=. -/\n")
+	fmt.Fprintf(&b, "def parseStatusPoints : List Int := %s\n\n", points)
 	b.WriteString("end Generated.C18Facts\n")
 	return b.String(), nil
 }
